@@ -144,3 +144,7 @@ pub use crate::types::*;
 // internal modules
 mod common;
 mod tcp;
+
+/// Verification hooks: run the production session loops over a caller-supplied byte stream
+#[cfg(feature = "verif-hooks")]
+pub mod verif;
